@@ -129,6 +129,7 @@ EXPORT errno_t _wcrtomb_s_chk(size_t *restrict retvalp, char *restrict dest,
 {
     size_t len;
     errno_t rc;
+    char tmp[MB_LEN_MAX];
 
     CHK_SRC_NULL("wcrtomb_s", retvalp)
     CHK_SRC_NULL("wcrtomb_s", ps)
@@ -150,7 +151,11 @@ EXPORT errno_t _wcrtomb_s_chk(size_t *restrict retvalp, char *restrict dest,
         }
     }
 
-    len = *retvalp = wcrtomb(dest, wc, ps);
+    /* convert into a scratch buffer: libc stores up to MB_CUR_MAX bytes */
+    len = *retvalp = wcrtomb(dest ? tmp : NULL, wc, ps);
+    if (dest && len < dmax) {
+        memcpy(dest, tmp, len);
+    }
 
     if (likely(len < dmax)) {
         if (dest) {
